@@ -11,6 +11,7 @@ import (
 	"fmt"
 	"go/ast"
 	"go/parser"
+	"go/printer"
 	"go/token"
 	"os"
 	"path/filepath"
@@ -140,6 +141,206 @@ func pairs(l [][2]string) string {
 	return "[" + strings.Join(s, ";\n   ") + "]"
 }
 
+// ---- pkg/inventory/policy.go: the decision functions CanApply / CanPrune / IDMatch ----------------
+// Translated statement by statement into a small table language (Inductive pexp in the generated
+// file).  Any statement the translator does not recognise is emitted as a label starting with "?",
+// which makes the agreement lemmas of Proofs/PolicySrcAgree.v fail.
+
+func render(n ast.Node) string {
+	var b strings.Builder
+	_ = printer.Fprint(&b, token.NewFileSet(), n)
+	return b.String()
+}
+
+func findFunc(f *ast.File, name string) *ast.FuncDecl {
+	for _, d := range f.Decls {
+		if fd, ok := d.(*ast.FuncDecl); ok && fd.Recv == nil && fd.Name.Name == name {
+			return fd
+		}
+	}
+	return nil
+}
+
+// names of a `const ( A T = iota; B; C )` block whose first spec has type typ
+func iotaNames(f *ast.File, typ string) []string {
+	for _, d := range f.Decls {
+		gd, ok := d.(*ast.GenDecl)
+		if !ok || gd.Tok != token.CONST || len(gd.Specs) == 0 {
+			continue
+		}
+		first := gd.Specs[0].(*ast.ValueSpec)
+		id, ok := first.Type.(*ast.Ident)
+		if !ok || id.Name != typ {
+			continue
+		}
+		if len(first.Values) != 1 || render(first.Values[0]) != "iota" {
+			return []string{"?not-iota:" + render(first)}
+		}
+		var out []string
+		for i, s := range gd.Specs {
+			vs := s.(*ast.ValueSpec)
+			if len(vs.Names) != 1 || (i > 0 && (vs.Type != nil || len(vs.Values) != 0)) {
+				return []string{"?spec:" + render(vs)}
+			}
+			out = append(out, vs.Names[0].Name)
+		}
+		return out
+	}
+	return []string{"?missing:" + typ}
+}
+
+// condition over the parameter `policy`
+func pexp(e ast.Expr) string {
+	switch v := e.(type) {
+	case *ast.ParenExpr:
+		return pexp(v.X)
+	case *ast.BinaryExpr:
+		switch v.Op {
+		case token.LOR:
+			return "(POr " + pexp(v.X) + " " + pexp(v.Y) + ")"
+		case token.LAND:
+			return "(PAnd " + pexp(v.X) + " " + pexp(v.Y) + ")"
+		case token.EQL, token.NEQ:
+			x, okx := v.X.(*ast.Ident)
+			y, oky := v.Y.(*ast.Ident)
+			if okx && oky && y.Name == "policy" { // constant on the left
+				x, y = y, x
+			}
+			if okx && oky && x.Name == "policy" {
+				if v.Op == token.EQL {
+					return "(PEq " + coqStr(y.Name) + ")"
+				}
+				return "(PNe " + coqStr(y.Name) + ")"
+			}
+		}
+	}
+	return "(PEq " + coqStr("?cond:"+render(e)) + ")"
+}
+
+// `return <true|false>, <nil|expr>` -> (result, error is nil)
+func retPair(s ast.Stmt) (string, bool) {
+	r, ok := s.(*ast.ReturnStmt)
+	if !ok || len(r.Results) != 2 {
+		return "", false
+	}
+	b, ok := r.Results[0].(*ast.Ident)
+	if !ok || (b.Name != "true" && b.Name != "false") {
+		return "", false
+	}
+	errnil := "false"
+	if id, ok := r.Results[1].(*ast.Ident); ok && id.Name == "nil" {
+		errnil = "true"
+	}
+	return "(" + b.Name + ", " + errnil + ")", true
+}
+
+func bad(what string, n ast.Node) string {
+	return "(" + coqStr("?"+what+":"+render(n)) + ", None, (false, false))"
+}
+
+// func F(inv Info, obj *unstructured.Unstructured, policy Policy) (bool, error) {
+//   matchStatus := IDMatch(inv, obj); switch matchStatus { case X: [if cond {] return b, e [}] ... }; return b, e }
+func policyFn(f *ast.File, name string) string {
+	fd := findFunc(f, name)
+	if fd == nil {
+		return "([" + bad("missing", ast.NewIdent(name)) + "], (false, false))"
+	}
+	var params []string
+	for _, fl := range fd.Type.Params.List {
+		for _, n := range fl.Names {
+			params = append(params, n.Name)
+		}
+	}
+	st := fd.Body.List
+	if strings.Join(params, ",") != "inv,obj,policy" || len(st) != 3 {
+		return "([" + bad("shape", fd.Type) + "], (false, false))"
+	}
+	if render(st[0]) != "matchStatus := IDMatch(inv, obj)" {
+		return "([" + bad("tag", st[0]) + "], (false, false))"
+	}
+	sw, ok := st[1].(*ast.SwitchStmt)
+	if !ok || sw.Init != nil || sw.Tag == nil || render(sw.Tag) != "matchStatus" {
+		return "([" + bad("switch", st[1]) + "], (false, false))"
+	}
+	tail, ok := retPair(st[2])
+	if !ok {
+		return "([" + bad("tail", st[2]) + "], (false, false))"
+	}
+	var cls []string
+	for _, c := range sw.Body.List {
+		cc := c.(*ast.CaseClause)
+		label := "default"
+		if cc.List != nil {
+			id, ok := cc.List[0].(*ast.Ident)
+			if !ok || len(cc.List) != 1 {
+				cls = append(cls, bad("label", cc))
+				continue
+			}
+			label = id.Name
+		}
+		if len(cc.Body) != 1 {
+			cls = append(cls, bad("body", cc))
+			continue
+		}
+		if r, ok := retPair(cc.Body[0]); ok {
+			cls = append(cls, "("+coqStr(label)+", None, "+r+")")
+			continue
+		}
+		is, ok := cc.Body[0].(*ast.IfStmt)
+		if !ok || is.Init != nil || is.Else != nil || len(is.Body.List) != 1 {
+			cls = append(cls, bad("stmt", cc.Body[0]))
+			continue
+		}
+		r, ok := retPair(is.Body.List[0])
+		if !ok {
+			cls = append(cls, bad("ret", is.Body.List[0]))
+			continue
+		}
+		cls = append(cls, "("+coqStr(label)+", Some "+pexp(is.Cond)+", "+r+")")
+	}
+	return "([" + strings.Join(cls, ";\n    ") + "],\n   " + tail + ")"
+}
+
+// IDMatch: a chain of `if cond { return X }` closed by `return X`, after the two lookups
+func idMatch(f *ast.File) string {
+	fd := findFunc(f, "IDMatch")
+	if fd == nil {
+		return "[(" + coqStr("?missing") + ", " + coqStr("") + ")]"
+	}
+	var out []string
+	for _, s := range fd.Body.List {
+		switch v := s.(type) {
+		case *ast.AssignStmt:
+			out = append(out, "("+coqStr("let")+", "+coqStr(render(v))+")")
+		case *ast.IfStmt:
+			if v.Init == nil && v.Else == nil && len(v.Body.List) == 1 {
+				if r, ok := v.Body.List[0].(*ast.ReturnStmt); ok && len(r.Results) == 1 {
+					out = append(out, "("+coqStr(render(v.Cond))+", "+coqStr(render(r.Results[0]))+")")
+					continue
+				}
+			}
+			out = append(out, "("+coqStr("?if")+", "+coqStr(render(v))+")")
+		case *ast.ReturnStmt:
+			if len(v.Results) == 1 {
+				out = append(out, "("+coqStr("")+", "+coqStr(render(v.Results[0]))+")")
+				continue
+			}
+			out = append(out, "("+coqStr("?return")+", "+coqStr(render(v))+")")
+		default:
+			out = append(out, "("+coqStr("?stmt")+", "+coqStr(render(s))+")")
+		}
+	}
+	return "[" + strings.Join(out, ";\n   ") + "]"
+}
+
+func strList(l []string) string {
+	var s []string
+	for _, x := range l {
+		s = append(s, coqStr(x))
+	}
+	return "[" + strings.Join(s, "; ") + "]"
+}
+
 func main() {
 	repo := os.Getenv("VERIF_REPO")
 	if repo == "" {
@@ -197,6 +398,16 @@ func main() {
 	for _, c := range []string{"annotationSeparator", "fieldSeparator", "namespacesField"} {
 		b.WriteString("Definition src_dep_" + c + " : string := " + coqStr(constStr(ds, c)) + ".\n")
 	}
+	pol := parse(filepath.Join(repo, "pkg/inventory/policy.go"))
+	b.WriteString("\n(* pkg/inventory/policy.go: Policy / IDMatchStatus constants in iota order, IDMatch, CanApply, CanPrune *)\n")
+	b.WriteString("Inductive pexp := PEq (c : string) | PNe (c : string) | POr (a b : pexp) | PAnd (a b : pexp).\n")
+	b.WriteString("Definition src_policy_iota : list string := " + strList(iotaNames(pol, "Policy")) + ".\n")
+	b.WriteString("Definition src_idmatch_iota : list string := " + strList(iotaNames(pol, "IDMatchStatus")) + ".\n")
+	b.WriteString("Definition src_owning_inventory_key : string := " + coqStr(constStr(pol, "OwningInventoryKey")) + ".\n")
+	b.WriteString("Definition src_idmatch : list (string * string) :=\n  " + idMatch(pol) + ".\n")
+	b.WriteString("(* clause = (case label, guard over `policy`, (result, error is nil)); second component = the return after the switch *)\n")
+	b.WriteString("Definition src_can_apply : list (string * option pexp * (bool * bool)) * (bool * bool) :=\n  " + policyFn(pol, "CanApply") + ".\n")
+	b.WriteString("Definition src_can_prune : list (string * option pexp * (bool * bool)) * (bool * bool) :=\n  " + policyFn(pol, "CanPrune") + ".\n")
 	if err := os.MkdirAll(filepath.Dir(out), 0o755); err != nil {
 		fmt.Fprintln(os.Stderr, err)
 		os.Exit(3)
